@@ -15,6 +15,8 @@ Record hcase := HC {
   hc_obs : hobs;
   hc_top : nat;          (* result.depth (0 when an exception was raised) *)
   hc_print : option hobs;(* print_tree lines as (depth, name, []) or its exception *)
+  hc_whole : option (list lbl); (* prune_tree with paths, no depth limit, on an inner node: pre-order labels of
+                            result.root, i.e. the whole copy the returned node is still attached to *)
   hc_inv : bool          (* side conditions the harness evaluates on the live objects (see helper.py
                             `_side_conditions`): input tree, its separators and the path argument
                             unchanged; result made of new objects of the input's node class whose
@@ -55,6 +57,20 @@ Definition agree_top (st : pos) (c : hcall) (m : res tree) (top : nat) : bool :=
              end
   end.
 
+(* what is above the returned node of prune_tree on an inner node: the whole copy after the surgery
+   (C14_inner_result_in_whole_copy) *)
+Definition agree_whole (bin : bool) (tsep : str) (t : tree) (st : pos) (c : hcall) (w : option (list lbl)) : bool :=
+  match w, c with
+  | Some l, CPrune pp exact sep 0 =>
+      match locate_at bin tsep sep (copy_tree t) st (norm_paths pp) with
+      | Ret targets =>
+          if bin then true
+          else list_eqb lbl_eqb (obs_tree (prune_paths targets exact (copy_tree t))) l
+      | Raise _ => true
+      end
+  | _, _ => true
+  end.
+
 (* nested prune targets are outside the claim of C14: nothing is compared there *)
 Definition outside_claim (bin : bool) (tsep : str) (t : tree) (st : pos) (c : hcall) : bool :=
   match c with
@@ -74,7 +90,8 @@ Definition check_C14 (c : hcase) : nat :=
   | _ =>
       if outside_claim (hc_bin c) (hc_sep c) (hc_tree c) (hc_start c) (hc_call c) then F_SKIP else
       flag (negb (agree m (hc_obs c) && agree_top (hc_start c) (hc_call c) m (hc_top c)
-                  && agree_print m (hc_print c))) F_DISAGREE
+                  && agree_print m (hc_print c)
+                  && agree_whole (hc_bin c) (hc_sep c) (hc_tree c) (hc_start c) (hc_call c) (hc_whole c))) F_DISAGREE
       + flag (negb (prop_C14_at (hc_bin c) (hc_sep c) (hc_tree c) (hc_start c) (hc_call c) (hc_obs c)
                     && prop_C14_top (hc_call c) (hc_obs c) (hc_top c)
                     && prop_C14_print (hc_bin c) (hc_sep c) (hc_tree c) (hc_start c) (hc_call c) (hc_print c)
